@@ -22,6 +22,10 @@ var coreHistories = []history{histories[0], histories[1], histories[3], historie
 
 // tierGrids returns the sub-grids of the current tier in the order they are
 // explored (cheapest / shallowest first, so a deadline cap cuts the deepest).
+// unusableSlotValues: annotation values that are JSON but no list of int32 (a decoder filling what it can would see
+// slots 0, 1, 2 in them), next to one usable value in an unusual encoding.
+var unusableSlotValues = []string{`["2"]`, `[1.5]`, `[[1]]`, `[2, 4294967297]`, `[1,"x",2]`, `{"0":1}`, `[null,1]`, ` [ 1 ]`}
+
 func tierGrids() []gridOpts {
 	full := gridOpts{N: 4, MaxR: 3, MaxSlots: 2, Policies: []string{"OrderedReady", "Parallel"},
 		Strategies: []gen.Strategy{gen.RU(0), gen.RU(1), gen.RU(2), gen.RU(4), gen.RU(7), gen.OnDelete(), gen.OnDeleteWithBlock(1), gen.Typeless(2)}, Histories: histories, DMin: 0, DMax: 1, Limit: 10}
@@ -41,7 +45,10 @@ func tierGrids() []gridOpts {
 		expr.SelExpr = true
 		far := odd
 		far.Far = []int{9, 10, 11}
-		return []gridOpts{full, deep, expr, far}
+		raw := odd
+		raw.RawSlots = unusableSlotValues
+		raw.Histories = []history{histories[0], histories[1]}
+		return []gridOpts{full, deep, expr, far, raw}
 	}
 	// thorough: six grids, shallow and wide first
 	a := full
@@ -69,7 +76,9 @@ func tierGrids() []gridOpts {
 	expr.SelExpr = true
 	far := odd
 	far.Far = []int{9, 10, 11}
-	return []gridOpts{a, b, c, d, expr, far}
+	raw := odd
+	raw.RawSlots = unusableSlotValues
+	return []gridOpts{a, b, c, d, expr, far, raw}
 }
 
 func monitorOf(props ...string) explore.JudgeFn {
